@@ -107,10 +107,12 @@ Fixpoint fn_end_trim (n : nat) (s : list otok) : list otok :=
 Record outst := mkOut {
   o_lines : list (text * list text);    (* finished lines, newest first *)
   o_cur : list otok;                    (* current line, newest first *)
-  o_fs : list (option nat)              (* active function calls, innermost first: Some n = nothing but
+  o_fs : list (option nat);             (* active function calls, innermost first: Some n = nothing but
                                            blanks written so far, the call started at stream length n *)
+  o_str : bool                          (* evaluating a string (choice text): no line is ever finished *)
 }.
-Definition out_empty : outst := mkOut [] [] [].
+Definition out_empty : outst := mkOut [] [] [] false.
+Definition out_string : outst := mkOut [] [] [] true.
 
 Definition fn_trimming (fs : list (option nat)) : bool :=
   match fs with Some _ :: _ => true | _ => false end.
@@ -132,27 +134,28 @@ Fixpoint split_nl (s : list otok) : list otok * list otok :=
 (* the pending newline becomes a line end *)
 Definition commit (o : outst) : outst :=
   let '(newer, older) := split_nl (o_cur o) in
-  mkOut (render_line older :: o_lines o) newer (map (fun x => match x with Some _ => Some O | None => None end) (o_fs o)).
+  if o_str o then o else
+  mkOut (render_line older :: o_lines o) newer (map (fun x => match x with Some _ => Some O | None => None end) (o_fs o)) (o_str o).
 
 Definition push (k : otok) (o : outst) : outst :=
   match k with
-  | OGlue => mkOut (o_lines o) (OGlue :: trim_newlines (o_cur o)) (o_fs o)
+  | OGlue => mkOut (o_lines o) (OGlue :: trim_newlines (o_cur o)) (o_fs o) (o_str o)
   | OTag t =>
       let o1 := if ends_in_nl (o_cur o) then commit o else o in
-      mkOut (o_lines o1) (OTag t :: o_cur o1) (o_fs o1)
+      mkOut (o_lines o1) (OTag t :: o_cur o1) (o_fs o1) (o_str o1)
   | ONl =>
       if existsb is_glue (o_cur o) || fn_trimming (o_fs o) then o
       else if ends_in_nl (o_cur o) || negb (existsb is_textual (o_cur o)) then o
-      else mkOut (o_lines o) (ONl :: o_cur o) (o_fs o)
+      else mkOut (o_lines o) (ONl :: o_cur o) (o_fs o) (o_str o)
   | OText t =>
       match t with
       | [] => o
       | _ =>
-        if blank t then mkOut (o_lines o) (OText t :: o_cur o) (o_fs o)
+        if blank t then mkOut (o_lines o) (OText t :: o_cur o) (o_fs o) (o_str o)
         else
           let o1 := if ends_in_nl (o_cur o) then commit o else o in
           let s := filter (fun k => negb (is_glue k)) (o_cur o1) in
-          mkOut (o_lines o1) (OText t :: s) (map (fun _ => None) (o_fs o1))
+          mkOut (o_lines o1) (OText t :: s) (map (fun _ => None) (o_fs o1)) (o_str o1)
       end
   end.
 
@@ -160,18 +163,18 @@ Definition push (k : otok) (o : outst) : outst :=
 Definition flush (o : outst) : outst :=
   match o_cur o with
   | [] => o
-  | s => mkOut (render_line s :: o_lines o) [] (o_fs o)
+  | s => mkOut (render_line s :: o_lines o) [] (o_fs o) (o_str o)
   end.
 (* an error interrupts the line: what was written so far is still observable (current text) *)
 Definition flush_on_error (o : outst) : outst := flush o.
 
-Definition fn_enter (o : outst) : outst := mkOut (o_lines o) (o_cur o) (Some (length (o_cur o)) :: o_fs o).
+Definition fn_enter (o : outst) : outst := mkOut (o_lines o) (o_cur o) (Some (length (o_cur o)) :: o_fs o) (o_str o).
 Definition fn_leave (o : outst) : outst :=
   match o_fs o with
   | [] => o
   | st :: r =>
       let n := match st with Some k => length (o_cur o) - k | None => length (o_cur o) end in
-      mkOut (o_lines o) (fn_end_trim n (o_cur o)) r
+      mkOut (o_lines o) (fn_end_trim n (o_cur o)) r (o_str o)
   end%nat.
 
 (* ------------------------------------------------------------------ state *)
@@ -544,7 +547,7 @@ Definition trim_blanks (t : text) : text := rev (drop_while is_inline_ws (rev (d
 
 Definition eval_string (fuel : nat) (tmps : list (text * val)) (st : state) (c : list inl) : R (text * state) :=
   let saved := st_out st in
-  st1 <-- do_inl fuel tmps (set_out st out_empty) c ;;
+  st1 <-- do_inl fuel tmps (set_out st out_string) c ;;
   ROk (string_of_out (st_out st1), set_out st1 saved).
 
 (* one choice of a group: text first (start, then choice-only), then the conditions, then the
